@@ -12,8 +12,9 @@
    the selected completion applied (the original when none is selected);
    None = IndexError. *)
 From Coq Require Import ZArith List Bool.
-From PTK Require Import Lib.Sx Lib.Py Model.C15_Async Proofs.C15_Base Proofs.C15_User
-  Proofs.C15_Sched Proofs.C15_Cfg Proofs.C15_Theorems Proofs.C15_Rebase Proofs.C15_Round4 Proofs.C15_Det.
+From PTK Require Import Lib.Sx Lib.Py Model.C15_HistLines Model.C15_Async Proofs.C15_Base Proofs.C15_User
+  Proofs.C15_Sched Proofs.C15_Cfg Proofs.C15_Theorems Proofs.C15_Rebase Proofs.C15_Round4 Proofs.C15_Det
+  Proofs.C15_HistLines Proofs.C15_DetComp Proofs.C15_Round6.
 Import ListNotations.
 Open Scope Z_scope.
 
@@ -363,3 +364,141 @@ Example C15_former_witness_now_fine :
   exists cs, cst s = Some cs /\ cs_idx cs = Some 0 /\ len (cs_comps cs) = 1 /\
              ntp cs = Some (text s, cur s).
 Proof. vm_compute. eexists. repeat split. Qed.
+
+(* ---- round 6: the list start_history_lines_completion computes ------------
+   [hist_lines wl t p]: (text, start_position) of the completions the method
+   hands to _set_completions for the working lines [wl] and the document
+   (t, p) (Model/C15_HistLines.v, white space = the regenerated str.isspace
+   table).  [hl_current_line t p] = document.current_line_before_cursor.lstrip(). *)
+
+(* every entry is a stripped non-empty line of a working line that starts with
+   the left-stripped current line before the cursor, and replaces exactly it *)
+Theorem C15_history_lines_sound : forall wl t p l st,
+  In (l, st) (hist_lines wl t p) ->
+  st = - len (hl_current_line t p) /\ st <= 0 /\ l <> [] /\
+  startswith l (hl_current_line t p) = true /\
+  exists s l0, In s wl /\ In l0 (split_on NL s) /\ l = strip_by hl_space l0.
+Proof. exact hist_sound. Qed.
+Print Assumptions C15_history_lines_sound.
+
+(* every such line is in the menu ... *)
+Theorem C15_history_lines_complete : forall wl t p s l0,
+  In s wl -> In l0 (split_on NL s) ->
+  strip_by hl_space l0 <> [] -> startswith (strip_by hl_space l0) (hl_current_line t p) = true ->
+  In (strip_by hl_space l0, - len (hl_current_line t p)) (hist_lines wl t p).
+Proof. exact hist_complete. Qed.
+Print Assumptions C15_history_lines_complete.
+
+(* ... once *)
+Theorem C15_history_lines_nodup : forall wl t p, NoDup (map fst (hist_lines wl t p)).
+Proof. exact hist_nodup. Qed.
+Print Assumptions C15_history_lines_nodup.
+
+(* selecting an entry keeps the whole text before the cursor and inserts the
+   rest of the found line at the cursor ([apply_comp] = new_text_and_position
+   for one completion) *)
+Theorem C15_history_lines_extends : forall wl t p l st src,
+  0 <= p <= len t -> In (l, st) (hist_lines wl t p) ->
+  apply_comp (mkdoc t p) (mkc l st src) =
+  (slice_to t p ++ skipn (length (hl_current_line t p)) l ++ slice_from t p,
+   p + len l - len (hl_current_line t p)).
+Proof. exact hist_apply_extends. Qed.
+Print Assumptions C15_history_lines_extends.
+
+(* after ANY schedule, with ANY history window: the call never raises and
+   installs a new menu for the CURRENT document (not for an older one) whose
+   entries are exactly that list, each computed from the current document,
+   entry 0 selected and applied (none when the list is empty) *)
+Theorem C15_history_lines_menu : forall c t p ls before after s' e,
+  0 <= p <= len t ->
+  let s := reach c t p ls in
+  step s (HistoryLines before after) = (s', e) ->
+  let l := hist_lines (before ++ [text s] ++ after) (text s) (cur s) in
+  e = 0 /\
+  exists cs, cst s' = Some cs /\ cs_orig cs = cur_doc s /\
+             map (fun x => (ctext x, cstart x)) (cs_comps cs) = l /\
+             Forall (fun x => csrc x = cur_doc s) (cs_comps cs) /\
+             cs_idx cs = (match l with [] => None | _ => Some 0 end) /\
+             ntp cs = Some (text s', cur s').
+Proof. exact reach_hist_step. Qed.
+Print Assumptions C15_history_lines_menu.
+
+(* a multi-line buffer "x\n  a" between an older (" ab \nb") and a newer
+   ("ac\nab") working line: the current line before the cursor, left-stripped,
+   is "a"; found, most recent first: "ac", the current line "a" itself, "ab"
+   (once) *)
+Example C15_history_lines_example :
+  hist_lines [[32; 97; 98; 32; 10; 98]; [120; 10; 32; 32; 97]; [97; 99; 10; 97; 98]] [120; 10; 32; 32; 97] 5
+  = [([97; 99], -1); ([97], -1); ([97; 98], -1)].
+Proof. vm_compute. reflexivity. Qed.
+
+(* ---- round 6: the executor hand-off for the completion list ----------------
+   The completion-list analogue of C15_threaded_values.  ThreadedCompleter /
+   generator_to_async_generator deliver the items of
+   completer.get_completions(document) - a function [f] of the document the
+   call was made with - one by one.  [dc_run f s ls]: every CYield of [ls]
+   that the code is going to append carries the item of [f] at the
+   generator's position, and a CEnd comes when the list is exhausted; the
+   position is the length of the menu's list (while proceed() holds every
+   delivered item was appended and nothing else writes the list).  Nothing
+   is asked of the other labels, of their order or of their number. *)
+
+(* while the stream is running, the menu it fills is a prefix of the
+   completer's list for the document the menu is for (never items of an
+   older call) *)
+Theorem C15_threaded_completions : forall (f : doc -> list (str * Z)) c t p ls,
+  0 <= p <= len t -> dc_run f (init (current c) t p) ls ->
+  let s := reach c t p ls in
+  forall co cs, In co (ccos s) -> cst s = Some cs -> cs_id cs = cc_id co ->
+    cc_doc co = cs_orig cs /\
+    map (fun x => (ctext x, cstart x)) (cs_comps cs) = firstn (length (cs_comps cs)) (f (cs_orig cs)).
+Proof. intros f c t p ls. exact (det_loading f (current c) t p ls). Qed.
+Print Assumptions C15_threaded_completions.
+
+(* ... and at the moment the generator ends it is the whole list *)
+Theorem C15_threaded_completions_loaded : forall (f : doc -> list (str * Z)) c t p ls k,
+  0 <= p <= len t -> dc_run f (init (current c) t p) (ls ++ [CEnd k]) ->
+  let s := reach c t p ls in
+  forall co cs, get_nth (ccos s) k = Some co -> cst s = Some cs -> cs_id cs = cc_id co ->
+    map (fun x => (ctext x, cstart x)) (cs_comps cs) = f (cs_orig cs).
+Proof. intros f c t p ls k. exact (det_loaded f (current c) t p ls k). Qed.
+Print Assumptions C15_threaded_completions_loaded.
+
+(* the hypothesis is satisfiable: a completer with two items, the user types
+   while the first stream runs (text only grew: the coroutine restarts for the
+   new document and delivers the list for THAT document) *)
+Example C15_threaded_completions_example :
+  let f := fun d : doc => if dcur d =? 1 then [([97; 98], -1); ([97; 99], -1)] else [([97; 98; 99], -2)] in
+  let ls := [StartCompletion 0; Tick; CYield 0 [97; 98] (-1); Insert [98]; CYield 0 [97; 99] (-1);
+             CYield 0 [97; 98; 99] (-2); CEnd 0] in
+  dc_run f (init (current w_cfg) [97] 1) ls /\
+  exists cs, cst (reach w_cfg [97] 1 ls) = Some cs /\ cs_orig cs = mkdoc [97; 98] 2 /\
+             map (fun x => (ctext x, cstart x)) (cs_comps cs) = [([97; 98; 99], -2)].
+Proof.
+  split.
+  - cbn [dc_run]. repeat split;
+      try (intros co cs Hg Hc Hid; vm_compute in Hg, Hc; inversion Hg; inversion Hc; subst; vm_compute in Hid |- *;
+           try discriminate; reflexivity).
+  - vm_compute. eexists. repeat split.
+Qed.
+
+(* ---- round 6: the single-completion no-op test ------------------------------
+   completion_does_nothing(document, completion) - which decides whether the
+   only completion of a finished stream is dropped - is True exactly when
+   applying the completion leaves text and cursor unchanged, for every start
+   position from -len(text_before_cursor) to 0 (0: only the empty text). *)
+Theorem C15_does_nothing_exact : forall d c,
+  0 <= dcur d <= len (dtext d) -> - len (tbc d) <= cstart c <= 0 ->
+  (does_nothing d c = true <-> apply_comp d c = (dtext d, dcur d)).
+Proof. exact does_nothing_exact. Qed.
+Print Assumptions C15_does_nothing_exact.
+
+(* outside that range (a completer that claims to replace more than there is
+   before the cursor) the Python slice text_before_cursor[len + start:] wraps
+   around: Completion('b', -3) on 'ab' counts as "does nothing" although
+   applying it gives 'b'.  Not a staleness defect; completers are documented
+   to keep start_position inside the text. *)
+Example C15_does_nothing_wraps_outside :
+  let d := mkdoc [97; 98] 2 in let c := mkc [98] (-3) d in
+  does_nothing d c = true /\ apply_comp d c = ([98], 1).
+Proof. vm_compute. split; reflexivity. Qed.
